@@ -23,6 +23,7 @@ Sign == /\ IsEvent("sign") /\ Ev.res = "ok" /\ Ev.outcome = "value" /\ Ev.readab
         /\ (Ev.openssl.ran => Ev.openssl.right /\ ~Ev.openssl.wrong)        \* independent implementation 1
         /\ Ev.mozilla.right /\ ~Ev.mozilla.wrong                            \* independent implementation 2
         /\ Ev.own.parsed /\ Ev.own.fields /\ Ev.own.verify = "true" /\ Ev.own.verify_other \notin {"true", "true+error", "panic"}
+        /\ Ev.own.input_unchanged                                          \* parsing and verifying leave the caller's bytes alone
 Reset == IsEvent("reset")
 Conform == Sign \/ Reset
 Deviate == /\ l <= Len(Trace) /\ ~ENABLED Conform /\ TLCSet(2, TLCGet(2) \cup {l}) /\ l' = Ev.nx
